@@ -40,6 +40,7 @@ type flowParams struct {
 	GateDestOpen bool    `json:"gate_dest_open"` // destination Open calls are pending events with answers {ok, err}
 	NoMatch      []int   `json:"no_match"`       // records that do not match the processors' condition (Cond: "match")
 	GateDLQOpen  bool    `json:"gate_dlq_open"`  // the DLQ connector's Open is a pending event (an unresponsive DLQ during start-up)
+	Reject       map[string][]string `json:"reject"` // destination -> records/pieces it rejects (forced answers, C08)
 }
 
 // procParam describes one scripted processor of the scenario.
@@ -74,6 +75,9 @@ func (p flowParams) name() string {
 	if p.GateDLQOpen {
 		n += "/dlqopen"
 	}
+	if p.Reject != nil {
+		n += fmt.Sprintf("/reject=%v", p.Reject)
+	}
 	if p.Bundle > 0 {
 		n += fmt.Sprintf("/bundle%d", p.Bundle)
 	}
@@ -106,7 +110,14 @@ func (p flowParams) topology() stack.Topology {
 		t.Sources = append(t.Sources, fakes.SourceScript{Name: fmt.Sprintf("s%d", s), Batches: batches, ReadMenu: p.ReadMenu, NoMatch: p.NoMatch})
 	}
 	for d := 0; d < p.Dests; d++ {
-		t.Dests = append(t.Dests, fakes.DestScript{Name: fmt.Sprintf("d%d", d), AckMenu: p.AckMenu, GateOpen: p.GateDestOpen, Faults: p.GateDestOpen})
+		ds := fakes.DestScript{Name: fmt.Sprintf("d%d", d), AckMenu: p.AckMenu, GateOpen: p.GateDestOpen, Faults: p.GateDestOpen}
+		if p.Reject != nil {
+			ds.Reject = map[string]bool{}
+			for _, k := range p.Reject[ds.Name] {
+				ds.Reject[k] = true
+			}
+		}
+		t.Dests = append(t.Dests, ds)
 	}
 	dlqMenu := p.DLQMenu
 	if len(dlqMenu) == 0 {
@@ -240,6 +251,8 @@ func kindName(k string) string {
 		return "split2"
 	case "3":
 		return "split3"
+	case "s":
+		return "shortonce"
 	}
 	return k
 }
